@@ -91,6 +91,13 @@ def handle (toks : List String) : String :=
     | some (c, hrMax :: rh :: temps) =>
       showFs ((c.rhVertices hrMax rh temps).flatMap fun q => [q.1, q.2])
     | _ => "bad-op"
+  | "datapts" :: useIp :: rest =>
+    -- datapts <ip> <bx> <by> <xd> <yd> <tmin> <p> <n temperatures (C)> <n humidities>  ->  x y of every entry
+    match (floats rest).bind (chart? useIp) with
+    | some (c, vals) =>
+      let n := vals.length / 2
+      showFs ((c.dataPoints (vals.take n) (vals.drop n)).flatMap fun q => [q.1, q.2])
+    | _ => "bad-op"
   | "datapt" :: useIp :: rest =>
     match (floats rest).bind (chart? useIp) with
     | some (c, [t, rh]) => let r := c.dataPoint t rh; showFs [r.1, r.2]
